@@ -5,6 +5,9 @@
 (*   packed, bytes       Pack() succeeded / its octets                          *)
 (*   unpacked, msg2      Unpack(bytes) succeeded / its projection               *)
 (*   repacked, rebytes   Unpack(bytes).Pack()                                   *)
+(*   reusedsame          Unpack(bytes) into a Msg that decoded a rich message    *)
+(*                       before projects to msg2 as well; heldsame: the message  *)
+(*                       decoded at start-up and held since still reads the same *)
 (*   pbufok, pbufsame    PackBuffer into a buffer pre-filled with 0xff gave the  *)
 (*                       octets of Pack(); rrsame: so did PackRR record by record*)
 (* The specification decides: bytes = EncMsg(msg), msg2 = NormMsg(msg),         *)
@@ -30,6 +33,8 @@ Stage(e) ==        \* "ok" or the first clause the event violates
   ELSE IF ~e.rrsame THEN "packrr-octets"                \* PackRR, record by record, at offset 7 of such a buffer
   ELSE IF ~e.unpacked THEN "unpack-error"
   ELSE IF e.msg2 # NormMsg(m) THEN "unpack-fields"
+  ELSE IF ~e.reusedsame THEN "unpack-reused-fields"      \* a receiver that decoded another message before reads the same
+  ELSE IF ~e.heldsame THEN "unpack-aliasing"             \* a message decoded earlier and still held did not change
   ELSE IF ~e.repacked THEN "repack-error"
   ELSE IF e.rebytes # e.bytes THEN "repack-octets"
   ELSE "ok"
